@@ -176,6 +176,12 @@ def scorer_cuts(c, sc):
         L = 2 * rng.randint(max(2, ms), 5)
         s0 = rng.randint(0, n - L - 3)
         batches.append([(s0, s0 + L // 2, s0 + L)] + [(s0 + d, s0 + d + rng.randint(ms, L - ms), s0 + d + L) for d in (0, 1, 2, 3)])
+    if k == 3 and n >= 16 and ms <= 3:
+        # pure batches of odd-length cuts, every row split at the floor (or at the ceiling) of its midpoint: almost balanced
+        # windows, for which a "balanced" shortcut would be wrong
+        L = 2 * rng.randint(max(2, ms), 5) + 1
+        up = rng.randint(0, 1)
+        batches.append([(s_, s_ + L // 2 + up, s_ + L) for s_ in sorted(rng.sample(range(0, n - L + 1), min(4, n - L + 1)))])
     return batches
 
 
